@@ -32,7 +32,9 @@ MANIFEST = {
             "fixed point; an independent JSON reader parses the canonical text back to the key-ordered value "
             "(canon_parse), hence the text determines the value (canon_injective); the ES6 text and the repr text of a "
             "double denote the same exact decimal 0.d1..dk*10^n under an independent number reader, so numbers parse back "
-            "to the same value (es6_denotes, num_value_preserved, num_roundtrip); NaN/Infinity refused at any depth; strict "
+            "to the same value (es6_denotes, num_value_preserved, num_roundtrip); the fixed point canonicalize(json.loads(t)) = t "
+            "as a theorem under named hypotheses on float parsing / shortest-digits repr (canon_reread_fixpoint; the "
+            "hypotheses are premises of the statement, not axioms); NaN/Infinity refused at any depth; strict "
             "order under distinct keys. Source text (Props/C16Src.v): the ast of convert2Es6Format, translated on every run "
             "into a small imperative language with an interpreter, is the pinned program, and that program computes the "
             "model function on every input, so num_es6 holds of the text itself; sort key, separators, ensure_ascii and "
@@ -42,8 +44,14 @@ MANIFEST = {
             "decimals, strings/keys with BMP/astral/control characters, nesting to depth 6, shuffled orders). "
             "Trusted: Coq kernel + vm_compute, the restatement of float.__repr__ (validated each run against the real "
             "repr from independently obtained shortest digits), that repr yields the shortest round-trip digits "
-            "(CPython guarantee, sampled), Spec/Rfc8785.v written from memory of RFC 8785 / ECMA-262. Python ints with "
-            "|z| > 2^53 are outside the model (the code converts them through float()). The reader of canon_parse returns "
+            "(CPython guarantee, sampled), Spec/Rfc8785.v written from memory of RFC 8785 / ECMA-262. DOMAIN DECISION on "
+            "Python ints: the code sends every int through float() (convert2Es6Format), so an int is canonicalized as the "
+            "nearest double. The model covers ints with |z| <= 2^53 (conversion exact, repr(float(z)) is the numeral of z); "
+            "larger ints are OutOfModel on the Coq side and are not compared with the model. The property's domain is "
+            "'every finite double', so the oracle judges an int only when int(float(z)) == z (exactly representable, any "
+            "magnitude: 2^53+2, 10^22, 2^70 are checked against the reference) and does not alarm on ints that are not "
+            "doubles (2^53+1, 10^400 -> OverflowError): for those RFC 8785 prescribes no output and the upstream design "
+            "(float conversion) is taken as given. The reader of canon_parse returns "
             "number literals as text (float parsing is not modelled); the re-canonicalization fixed point through a real "
             "reader (json.loads) is checked by the oracle on every case, the model-level fixed point is canon_fixpoint. "
             "Thorough tier: the number part of the model extracted to OCaml (extract/c16) for ~750k doubles, cross-checked "
